@@ -736,6 +736,15 @@ class Resolver:
     def _resolve(self, call, fi, ctx=None):
         call = unawait(call)
         f = unawait(call.func)
+        if isinstance(f, ast.Name) and self._fi and f.id not in fi.params():
+            # a local alias of a callable (``h = getattr(self, '_upgrade_' + t); h(...)``)
+            defs = self.local_defs(fi).get(f.id) or []
+            if len(defs) == 1 and isinstance(unawait(defs[0]), (ast.Call, ast.Attribute)):
+                d = unawait(defs[0])
+                if isinstance(d, ast.Attribute) or (
+                        isinstance(d.func, ast.Name) and d.func.id == 'getattr'):
+                    call = ast.Call(d, call.args, call.keywords)
+                    f = d
         text = txt(f)
         if isinstance(f, ast.Call) and isinstance(f.func, ast.Name) and f.func.id == 'getattr' \
                 and len(f.args) >= 2:
